@@ -115,6 +115,36 @@ fn cfg_fresh() {
     }));
 }
 #[test]
+fn cfg_recipients_and_header() {
+    report(catch_unwind(|| -> Option<String> {
+        // recipients handed over in two calls: each of them opens the archive
+        let s0 = StaticSecret::from([0x31u8; 32]);
+        let s1 = StaticSecret::from([0x32u8; 32]);
+        let mut wcfg = ArchiveWriterConfig::new();
+        wcfg.set_layers(crate::Layers::ENCRYPT);
+        wcfg.add_public_keys(&[PublicKey::from(&s0)]);
+        wcfg.add_public_keys(&[PublicKey::from(&s1)]);
+        // two headers from one configuration: the ephemeral key is drawn afresh each time
+        let h1 = wcfg.encrypt.to_persistent().ok()?;
+        let h2 = wcfg.encrypt.to_persistent().ok()?;
+        if h1.multi_recipient.public == h2.multi_recipient.public {
+            return Some("two headers produced from one configuration carry the same ephemeral public key: it is derived from something the configuration already holds, not from fresh OS entropy".to_string());
+        }
+        let mut w = crate::ArchiveWriter::from_config(Vec::new(), wcfg).unwrap();
+        w.add_file("f", 3, &b"abc"[..]).unwrap();
+        w.finalize().unwrap();
+        let bytes = w.into_raw();
+        for (i, s) in [s0, s1].into_iter().enumerate() {
+            let mut rcfg = ArchiveReaderConfig::new();
+            rcfg.add_private_keys(&[s]);
+            if crate::ArchiveReader::from_config(std::io::Cursor::new(bytes.clone()), rcfg).is_err() {
+                return Some(format!("recipient #{i} of 2 (added in separate add_public_keys calls) cannot open the archive"));
+            }
+        }
+        None
+    }));
+}
+#[test]
 fn recipients() {
     let nkeys = (v_u64("nkeys", 3) as usize).min(3);
     let outcome = [v_u64("o0", 0), v_u64("o1", 0), v_u64("o2", 1)];
